@@ -295,7 +295,7 @@ class C31(Prop):
                           ("F1.1", 4), ("F1.1dup", 2), ("F2.1", 2)],
                 "thorough": [("F3.3", 384), ("F2.4", 256), ("F2.3", 48), ("F1.2q", 48), ("F3.2", 64),
                              ("F1.3s", 16), ("F2.2", 8), ("F3.1", 8), ("F1.1", 4), ("F1.1dup", 2), ("F2.1", 2)]}
-    budget = {"quick": 300, "thorough": 2400}
+    budget = {"quick": 450, "thorough": 2400}
 
     def shards(self, tier):
         return [[fam, mod, r] for fam, mod in self.families[tier] for r in range(mod)]
